@@ -41,6 +41,7 @@ class Gen:
         self.next_obs = 0
         self.obs = []
         self.robs = []       # [host property, property whose binding it resets] of the observers that reset
+        self.ahosts = set()  # properties that host an observer that writes or resets (such a property is never moved)
         self.stats = {}
 
     def emit(self, s):
@@ -125,8 +126,10 @@ class Gen:
             q = self.r.choice(rt)
             self.emit(f"pobsreset {p} {k} {lab} {h} {q}")
             self.robs.append([p, q])
+            self.ahosts.add(p)
         elif tgt and k != 2 and self.r.random() < self.p.get('obsset', 0.25):
             self.emit(f"pobsset {p} {k} {lab} {h} {self.r.choice(tgt)}")
+            self.ahosts.add(p)
         else:
             self.emit(f"pobs {p} {k} {lab} {h}")
 
@@ -216,6 +219,7 @@ class Gen:
             if p is not None and len(self.props) > 2:
                 self.emit(f"pdel {p}")
                 del self.props[p]
+                self.ahosts.discard(p)
         elif c < 0.85 and self.held:
             b = self.held.pop(r.randrange(len(self.held)))
             self.emit(f"bholddel {b}")
@@ -227,6 +231,11 @@ class Gen:
         r = self.r
         s = self.pick()
         if s is None:
+            return
+        # the rank discipline (an acting observer only touches properties ranked above its host; a binding only reads properties
+        # ranked below its target) is what keeps dependency cycles out; a move would carry the observers to a property of another
+        # rank, so hosts of acting observers stay where they are
+        if s in self.ahosts:
             return
         # observers move with the signals of their host: a move must not put an observer that resets q's binding on q itself
         # (the binding would be destroyed inside the notification it is delivering: outside every quantifier)
@@ -247,6 +256,7 @@ class Gen:
                 return
             self.emit(f"pmoveassign {d} {s}")
             self.robs = [ro for ro in self.robs if ro[0] != d]      # the observers of the overwritten property are gone
+            self.ahosts.discard(d)
             for ro in self.robs:
                 if ro[0] == s:
                     ro[0] = d
